@@ -16,6 +16,7 @@ static void interval_entry(const char * tag)
     p[d] = sizeof(S) == 8 ? (S)vf_f64(np[d]) : (S)vf_f32(np[d]);
   }
   S res = sizeof(S) == 8 ? (S)vf_f64("res") : (S)vf_f32("res");
+  if (vf_paramf("fixres") > 0) {res = (S)vf_paramf("fixres");}
   vf_assume((res >= S(1e-3)) & (res <= S(10)));
   for (size_t d = 0; d < D; ++d) {
     vf_assume((lo[d] >= S(-1e3)) & (up[d] <= S(1e3)) & (lo[d] <= up[d]));
